@@ -67,6 +67,11 @@ def run(chk):
     if chk.want("R08.4"):
         r08_4(chk, sd)
         r08_expand(chk, repo, sd)
+    chk.rule("R08.5", "the coefficients the invariants are computed from are exact for band-limited functions: quadrature plumbing of the transform "
+                      "(one FFT norm, fft/ifft pairing, weights, phi grid, ntheta >= L + 1) (= C07 R07.7)", 4)
+    if chk.want("R08.5"):
+        from ..inherit import inherit
+        inherit(chk, "R08.5", "c07", ["R07.7"])
     chk.assume("rotation invariance as a numerical fact and the Clebsch-Gordan (Racah) formula itself are not decided")
     chk.assume("the installed _invariants .so may lag the .pyx source (Cython is not available to rebuild)")
 
